@@ -31,7 +31,8 @@ from harness import c12_models as MM  # noqa: E402
 def gen_spec(rng):
     return {'seed': rng.randrange(10 ** 9), 'na': rng.choice([0, 1, 1]), 'ncomp': rng.choice([2, 3, 4]),
             'beta_a': [rng.choice([1, 2]), rng.choice([1, 2])], 'norm_ya': rng.choice([None, 'linear(0.5, 1)', 'minmax']),
-            'listing': rng.random() < 0.5, 'norm_x1': rng.choice([None, 'minmax', 'zscore']), 'dist_yb': rng.random() < 0.7}
+            'listing': rng.random() < 0.5, 'norm_x1': rng.choice([None, 'minmax', 'zscore']), 'dist_yb': rng.random() < 0.7,
+            'nan_c': rng.random() < 0.5}
 
 
 def build_named_system(spec):
@@ -49,7 +50,8 @@ def build_named_system(spec):
                        data_fidelity=tuple(spec['beta_a']), training_data=sg()),
              Component(MM.m_b, inputs=[ya, x1], outputs=[yb], name='cb', vectorized=True, data_fidelity=(2, 1), training_data=sg())]
     if spec['ncomp'] >= 3:
-        comps.append(Component(MM.m_c, inputs=[ya, x2, yb], outputs=[yc], name='cc', vectorized=True, data_fidelity=(1, 1, 1),
+        comps.append(Component(MM.m_c_nan if spec.get('nan_c') else MM.m_c, inputs=[ya, x2, yb], outputs=[yc], name='cc',
+                               vectorized=True, data_fidelity=(1, 1, 1),
                                training_data=sg()))
     if spec['ncomp'] >= 4:
         comps.append(Component(MM.m_d, inputs=[yb, yc], outputs=[yd], name='cd', vectorized=True))   # no surrogate
@@ -198,6 +200,7 @@ def run_case(ctx, res, spec, lines, post, field=False):
     steps = rng.randint(4, 7)
     np.random.seed(seed % 2 ** 31)
     base = Path(tempfile.mkdtemp(prefix='amisc_c12_'))
+    snapshots = []
     other_cwd = Path(tempfile.mkdtemp(prefix='amisc_c12cwd_'))
     old_cwd = os.getcwd()
     try:
@@ -209,17 +212,21 @@ def run_case(ctx, res, spec, lines, post, field=False):
             if r['component'] is None:
                 break
             system.train_history.append(r)
-            d = base / f'it{it}'
-            d.mkdir()
-            system.save_to_file('s.yml', save_dir=d)
-            comp_keys, top_keys = doc_keys(d / 's.yml')
+            # all checkpoints of a run go into ONE directory under different file names (as a user keeping several snapshots
+            # would): an earlier checkpoint must stay intact when later ones are written next to it
+            d = base / 'ckpt'
+            d.mkdir(exist_ok=True)
+            fname = f's_it{it}.yml'
+            system.save_to_file(fname, save_dir=d)
+            comp_keys, top_keys = doc_keys(d / fname)
             live = deep_state(system)
+            snapshots.append((fname, live))
             # load from another working directory, and after moving the save directory as a unit
             moved = base / f'moved{it}'
             shutil.copytree(d, moved)
-            for where, path in (('in-place', d / 's.yml'), ('moved', moved / 's.yml')):
+            for where, path in (('in-place', d / fname), ('moved', moved / fname)):
                 if where == 'moved':
-                    shutil.rmtree(d)
+                    shutil.move(str(d), str(base / 'ckpt_hidden'))
                 os.chdir(other_cwd)
                 try:
                     loaded = System.load_from_file(path)
@@ -245,14 +252,15 @@ def run_case(ctx, res, spec, lines, post, field=False):
                                 res.failures.append({'kind': 'loaded-system-predicts-differently',
                                                      'input': {**info, 'iteration': it + 1, 'where': where, 'mode': mode, 'output': k}})
                 res.hit('save-load-' + where)
+            shutil.move(str(base / 'ckpt_hidden'), str(d))
             # document keys vs the field-map model
             for c in system.components:
                 lines.append('ps.keys ' + ' '.join(f'{k}={v}' for k, v in comp_flags(c).items()))
                 post.append(('keys', {**info, 'iteration': it + 1, 'component': c.name}, comp_keys.get(c.name)))
             # resume: continue training from the live and from the loaded object under the same seed
             if it == steps - 2 and not field:
-                loaded = System.load_from_file(moved / 's.yml')
-                twin_live = System.load_from_file(moved / 's.yml')   # independent copy standing for "no save/load"
+                loaded = System.load_from_file(moved / fname)
+                twin_live = System.load_from_file(moved / fname)   # independent copy standing for "no save/load"
                 st = np.random.get_state()
                 cont = []
                 for obj in (system, loaded):
@@ -275,6 +283,20 @@ def run_case(ctx, res, spec, lines, post, field=False):
                                          'observed': dlive})
                 res.hit('resume-compared')
                 break
+        # earlier checkpoints, read again after all the later ones were written into the same directory
+        for fname, snap in snapshots[:-1]:
+            try:
+                old = System.load_from_file(base / 'ckpt' / fname)
+            except Exception as e:  # noqa: BLE001
+                res.failures.append({'kind': 'load-from-file-raised', 'signature': 'none',
+                                     'input': {**info, 'checkpoint': fname, 'where': 'earlier checkpoint, same directory'},
+                                     'observed': repr(e)[:400]})
+                continue
+            diff = first_diff(snap, deep_state(old))
+            if diff:
+                res.failures.append({'kind': 'earlier-checkpoint-changed-by-a-later-save-in-the-same-directory',
+                                     'input': {**info, 'checkpoint': fname}, 'observed': diff})
+            res.hit('earlier-checkpoint-reloaded')
     finally:
         os.chdir(old_cwd)
         shutil.rmtree(base, ignore_errors=True)
